@@ -5,13 +5,13 @@ hooks_note = ("No hook is committed in /repo. Every check instruments a copy of 
               "and builds with `go build -overlay`; the overlay adds zz_verif_hooks.go to package s2. With no overlay there is no hook at all.")
 claimed = {
  "C14": dict(level="exploration", design="§2", technique="deterministic simulation: seeded one-runner scheduler over real goroutines + Go race detector + serial-clone oracle + lock-model deadlock verdicts",
-   text="Seeded search over schedules of 2-6 (thorough: 2-8) real goroutines querying shared, overlapping Loop/Polygon/ShapeIndex objects (index unbuilt, built, or stale; index shapes may be the very objects queried directly; a second batch runs one burst per fresh, cold process) on a replayable one-runner scheduler whose hand-off is invisible to the race detector; every run is checked for data races, serial-equivalent answers, deadlock, bounded progress and panics. Exploration, not proof: a clean batch is evidence.",
+   text="Seeded search over schedules of 2-6 (thorough: 2-8) real goroutines querying shared, overlapping Loop/Polygon/ShapeIndex objects (index unbuilt, built, or stale; index shapes may be the very objects queried directly, and member loops of a shared polygon / shapes of a shared index are questioned directly too; a second batch runs one burst per fresh, cold process) on a replayable one-runner scheduler whose hand-off is invisible to the race detector; every run is checked for data races, serial-equivalent answers, deadlock, bounded progress and panics. Exploration, not proof: a clean batch is evidence.",
    note="Trusted: the Go race detector; the instrumenter's yield placement; sequentially consistent interleavings only (preemption at sync statements and s2 function entries). The serial oracle is the library itself on a clone."),
  "C13": dict(level="exploration", design="§3", technique="deterministic simulation: seeded operation histories on long-lived objects vs fresh-object reference; lock model decides self-deadlock",
    text="Seeded search over operation histories (add/build/reset/invert/normalize/encode-decode/query; reuse of the three query object types, of distance targets and of regions; option changes on live queries; per-run workload mix) run as a simulated task; each answer is compared with the same query on fresh objects reaching the same state by the shortest sequence (three reference variants; one-sided oracle for the conservative cell predicates); hangs are decided by the lock model and a step bound, panics are caught.",
    note="Trusted: the reference is the same library on fresh objects, so only history dependence is decided. Structure-dependent conservative predicates are compared only on identical cell lists."),
  "C15": dict(level="fault_enumeration", design="§4", technique="deterministic simulation of the storage medium: complete single-fault enumeration on stored bytes and read stream + seeded fault sequences, in address-space-capped worker processes",
-   text="For every corpus encoding every truncation, bit flip, byte overwrite, count-field forgery and read error at every offset is applied under three reader shapes (ByteReader, 1 byte per Read, file-like seekable), plus torn reads behind forged windows, whole-stream stride-8 overwrites, seeded multi-fault sequences, splices, loop-level re-assembly, hostile-geometry streams, random bytes, cross-type decoding and decoding into used receivers; Decode must return, must not panic, abort or stall, and a returned value must survive containment, bounds, edge, cell and re-encode calls.",
+   text="For every corpus encoding every truncation, bit flip, byte overwrite, count-field forgery and read error at every offset is applied under three reader shapes (ByteReader, 1 byte per Read, file-like seekable), plus torn reads behind forged windows, whole-stream stride-8 overwrites, seeded multi-fault sequences, splices, loop-level re-assembly, hostile-geometry streams, random bytes, cross-type decoding and decoding into used receivers; Decode must return, must not panic, abort or stall, and a returned value must survive containment, bounds, edge, chain, cell and re-encode calls.",
    note="Complete per corpus entry for single faults; the corpus itself is sampled. 'Rejected before allocation' is observed through the 8 GiB address-space cap of the workers (an out-of-memory abort counts only if the run reproduces it alone). Wall-clock stall limit 90 s."),
  "C09": dict(level="fault_enumeration", design="§5", technique="deterministic simulation of the stream: every failing write call and every crash offset enumerated per value; benign reader behaviours enumerated/drawn; seeded value generation (plain workload generation for the value space)",
    text="Encode->simulated medium->Decode: under benign chunking/EOF/zero-read/ByteReader behaviour the decoded value must be bit-identical, answer identically and re-encode identically; for every write call and every byte offset a failing write / crash must never be acknowledged as success. The value space (the property's own quantifier) is only sampled by a steered generator.",
